@@ -389,7 +389,9 @@ func checkMain(propID, tier string) int {
 			continue
 		}
 		confirmed := v
-		if v.Kind != "data-race" && v.Idx >= 0 {
+		if v.Kind != "data-race" && v.Idx >= 0 && !p.Race {
+			// (violations seen in the race-detector workloads depend on schedule and process history; they are
+			// reported as observed, like race reports, instead of being re-executed alone)
 			rv, died, hung, note := runSingle(p, tier, seed, v.Idx, dir, 150*time.Second)
 			switch {
 			case died:
